@@ -231,7 +231,7 @@ fn build(spec: &Spec, negative: Option<&str>) -> (String, String) {
             let msig = format!("async fn m{lt}(&self{ps_src}){}", spec.ret_decl());
             let dflt_decl = if spec.dflt && !dynamic {
                 src.push_str("use ::core::sync::atomic::{AtomicUsize, Ordering::SeqCst};\npub static DROPPED: AtomicUsize = AtomicUsize::new(0);\npub struct Guard;\nimpl Drop for Guard { fn drop(&mut self) { DROPPED.fetch_add(1, SeqCst); } }\npub struct GS { pub g: Guard, pub v: u8 }\n");
-                "    async fn keeps(&self, _g: Guard, (a, mut b): (u8, u8), (c, _h): (u8, Guard), pair: (Guard, u8), GS { g: _sg, v }: GS) -> usize { b += a + c + pair.1 + v; let f = |_g: u8| _g; let _ = f(b); rt::yield_once().await; DROPPED.load(SeqCst) }\n    async fn boxed(&self, x: i32) -> Box<dyn ::core::fmt::Debug + Send> { Box::new((x, 7u8)) }\n    async fn opt_iter(&self, n: u8) -> Option<impl Iterator<Item = u8> + Send> { Some((0..n).into_iter()) }\n    async fn early(&self, c: bool) -> Box<dyn ::core::fmt::Debug + Send> { if c { return Box::new(1u8); } Box::new(\"late\") }\n"
+                "    async fn keeps(&self, _g: Guard, (a, mut b): (u8, u8), (c, _h): (u8, Guard), pair: (Guard, u8), GS { g: _sg, v }: GS) -> usize { b += a + c + pair.1 + v; let f = |_g: u8| _g; let _ = f(b); rt::yield_once().await; DROPPED.load(SeqCst) }\n    async fn boxed(&self, x: i32) -> Box<dyn ::core::fmt::Debug + Send> { Box::new((x, 7u8)) }\n    async fn opt_iter(&self, n: u8) -> Option<impl Iterator<Item = u8> + Send> { Some((0..n).into_iter()) }\n    async fn early(&self, c: bool) -> Box<dyn ::core::fmt::Debug + Send> { if c { return Box::new(1u8); } Box::new(\"late\") }\n    async fn early_impl(&self, e: bool) -> Result<impl ::core::fmt::Debug + Send, Box<dyn ::core::fmt::Debug + Send>> { if e { return Err(Box::new(2u8)); } Ok(1u8) }\n"
             } else {
                 ""
             };
@@ -250,13 +250,13 @@ fn build(spec: &Spec, negative: Option<&str>) -> (String, String) {
                     "pub fn run() -> Vec<String> {{\n    let mut fails = vec![];\n    let app = ::entrait::Impl::new(Rec {{ name: String::from(\"rn\") }});\n    let _ = rt::take();\n    let direct = format!(\"{{:?}}\", rt::block_on(Tr::m(&*app, {vals})));\n    let t_direct = rt::take();\n    let via = format!(\"{{:?}}\", rt::block_on(Tr::m(&app, {vals})));\n    rt::expect_eq(&mut fails, \"awaited result through Impl<T> vs the provider\", &via, &direct);\n    let t_via = rt::take();\n    rt::expect_eq(&mut fails, \"the body ran to completion exactly once (trace)\", &t_via, &t_direct);\n    if t_direct.len() != 1 {{ fails.push(String::from(\"HARNESS: direct call did not run the body once\")); }}\n@DFLT@    fails\n}}\n"
                 ));
                 let dflt_run = if spec.dflt {
-                    "    for through_impl in [false, true] {\n        DROPPED.store(0, SeqCst);\n        let before;\n        let r;\n        if through_impl { let fut = Tr::keeps(&app, Guard, (1, 2), (3, Guard), (Guard, 4), GS { g: Guard, v: 5 }); before = DROPPED.load(SeqCst); r = rt::block_on(fut); } else { let fut = Tr::keeps(&*app, Guard, (1, 2), (3, Guard), (Guard, 4), GS { g: Guard, v: 5 }); before = DROPPED.load(SeqCst); r = rt::block_on(fut); }\n        rt::expect_eq(&mut fails, \"defaulted async method: its by-value arguments (unused, an unused part of a destructured one, one of which only a field is used, one whose name the body uses for something else, an unused field of a struct pattern) are alive until the future has run (number dropped before the first poll, number dropped while the body runs)\", &(before, r), &(0, 0));\n        if DROPPED.load(SeqCst) != 4 { fails.push(format!(\"HARNESS: {} guards were dropped, not 4\", DROPPED.load(SeqCst))); }\n    }\n    rt::expect_eq(&mut fails, \"defaulted async method returning a boxed trait object\", &format!(\"{:?}\", rt::block_on(Tr::boxed(&app, 5))), &String::from(\"(5, 7)\"));\n    rt::expect_eq(&mut fails, \"defaulted async method returning an `impl Trait` nested in another type\", &rt::block_on(Tr::opt_iter(&app, 3)).map(|i| i.count()), &Some(3usize));\n    rt::expect_eq(&mut fails, \"defaulted async method with an early `return` that is coerced to the declared type\", &format!(\"{:?}/{:?}\", rt::block_on(Tr::early(&app, true)), rt::block_on(Tr::early(&app, false))), &String::from(\"1/\\\"late\\\"\"));\n"
+                    "    for through_impl in [false, true] {\n        DROPPED.store(0, SeqCst);\n        let before;\n        let r;\n        if through_impl { let fut = Tr::keeps(&app, Guard, (1, 2), (3, Guard), (Guard, 4), GS { g: Guard, v: 5 }); before = DROPPED.load(SeqCst); r = rt::block_on(fut); } else { let fut = Tr::keeps(&*app, Guard, (1, 2), (3, Guard), (Guard, 4), GS { g: Guard, v: 5 }); before = DROPPED.load(SeqCst); r = rt::block_on(fut); }\n        rt::expect_eq(&mut fails, \"defaulted async method: its by-value arguments (unused, an unused part of a destructured one, one of which only a field is used, one whose name the body uses for something else, an unused field of a struct pattern) are alive until the future has run (number dropped before the first poll, number dropped while the body runs)\", &(before, r), &(0, 0));\n        if DROPPED.load(SeqCst) != 4 { fails.push(format!(\"HARNESS: {} guards were dropped, not 4\", DROPPED.load(SeqCst))); }\n    }\n    rt::expect_eq(&mut fails, \"defaulted async method returning a boxed trait object\", &format!(\"{:?}\", rt::block_on(Tr::boxed(&app, 5))), &String::from(\"(5, 7)\"));\n    rt::expect_eq(&mut fails, \"defaulted async method returning an `impl Trait` nested in another type\", &rt::block_on(Tr::opt_iter(&app, 3)).map(|i| i.count()), &Some(3usize));\n    rt::expect_eq(&mut fails, \"defaulted async method with an early `return` that is coerced to the declared type\", &format!(\"{:?}/{:?}\", rt::block_on(Tr::early(&app, true)), rt::block_on(Tr::early(&app, false))), &String::from(\"1/\\\"late\\\"\"));\n    rt::expect_eq(&mut fails, \"defaulted async method whose return type has an `impl Trait` inside, with an early `return` that is coerced to the rest of it\", &format!(\"{:?}/{:?}\", rt::block_on(Tr::early_impl(&app, true)), rt::block_on(Tr::early_impl(&app, false))), &String::from(\"Err(2)/Ok(1)\"));\n"
                 } else {
                     ""
                 };
                 src = src.replace("@DFLT@", dflt_run);
             }
-            summary = format!("{attr} {}trait Tr{sup} {{ {msig};{} }}", at.trim(), if spec.dflt && !dynamic { " async fn keeps(&self, _g: Guard, (a, mut b): (u8, u8), (c, _h): (u8, Guard), pair: (Guard, u8), GS { g: _sg, v }: GS) -> usize { .. } async fn boxed(&self, x: i32) -> Box<dyn Debug + Send> { Box::new(..) } async fn opt_iter(&self, n: u8) -> Option<impl Iterator<Item = u8> + Send> { .. } async fn early(&self, c: bool) -> Box<dyn Debug + Send> { if c { return Box::new(1u8); } .. }" } else { "" });
+            summary = format!("{attr} {}trait Tr{sup} {{ {msig};{} }}", at.trim(), if spec.dflt && !dynamic { " async fn keeps(&self, _g: Guard, (a, mut b): (u8, u8), (c, _h): (u8, Guard), pair: (Guard, u8), GS { g: _sg, v }: GS) -> usize { .. } async fn boxed(&self, x: i32) -> Box<dyn Debug + Send> { Box::new(..) } async fn opt_iter(&self, n: u8) -> Option<impl Iterator<Item = u8> + Send> { .. } async fn early(&self, c: bool) -> Box<dyn Debug + Send> { if c { return Box::new(1u8); } .. } async fn early_impl(&self, e: bool) -> Result<impl Debug + Send, Box<dyn Debug + Send>> { if e { return Err(Box::new(2u8)); } Ok(1u8) }" } else { "" });
         }
         Kind::ImplBlockDyn => {
             let lt = if lts.is_empty() { String::new() } else { "'a, ".to_string() };
